@@ -172,6 +172,8 @@ class Program(object):
         from .inline import Inliner
         from . import normalise
         self.inlined = []
+        from . import rename
+        rename.undo_renames(self.modules, self.inlined)
         for _round in range(5):
             ch = normalise.simple_passes(self.modules, self.inlined)
             log = Inliner(self.modules).run()
